@@ -248,7 +248,8 @@ def run(tier):
     inp = os.path.join(wd, "in.log")
     open(inp, "w", encoding="utf-8").write(data)
     outp = os.path.join(wd, "out.log")
-    p = common.run_cli(b, ["redact", inp, "-o", outp, "--encrypt", "-q", k1], cwd=wd)
+    # (--replacement is documented as ignored with --encrypt: it is given here, a value the placeholders never take)
+    p = common.run_cli(b, ["redact", inp, "-o", outp, "--encrypt", "-q", k1, "--replacement", "<hidden %d>"], cwd=wd)
     if p.returncode != 0:
         raise common.Infra("redact --encrypt failed on the generated input: %s" % p.stderr.decode()[:400])
     p2 = common.run_cli(b, ["redact", inp, "-o", os.path.join(wd, "o2.log"), "--encrypt", "-q", k2], cwd=wd)
